@@ -12,23 +12,20 @@ which
 * holds again for the system `open` builds on a crash image without torn predecessor
   (`c05_crashInv_recovered`), and — NEW, the threading lemma —
 * holds again, for the SAME reference log, write history, acknowledged and tracked position,
-  after a CLEAN RESTART (drop + open with any configuration) of a clean system whose older
-  chunk files are synced: `lift_crashInv_clean_restart` (`crashInv_clean_restart_LIFT`).
+  after a CLEAN RESTART (drop + open with any configuration) of a clean system:
+  `lift_crashInv_clean_restart` (`crashInv_clean_restart_LIFT`).
 
 So every theorem stated from `CrashInvC5b` holds for arbitrary mixtures of histories, clean
 restarts and crash recoveries: `ReachLIFT`, `lift_reach_invariant`.
 
-**FINDING, kept visible (`lift_restart_forgets_unsynced_old_chunk`).** `Sys.Clean` alone is
-NOT enough for the threading lemma. If the `fdatasync` of an OLDER chunk file failed (the
-worker keeps that file in its list and goes back to `recv`: the system is clean), drop +
-open builds a worker that tracks only the newest file; the older file is never synced
-again. The restarted system is not `SysCovered` (so it satisfies `CrashInvC5b` for no
-reference log), a later flush is acknowledged with a POSITIVE callback while the older chunk
-file has no durable byte, and after a power failure `open` reports "Gap between chunks".
-Hence the extra hypothesis `Sys.OldSyncedLIFT y` (every linked file with bytes not known
-durable is the open chunk's file) of the restart statements; it holds whenever the clean
-worker's file list has one entry (`lift_oldSynced_of_single_file`), in every recovered and in
-every restarted system.
+**D15 (`lift_restart_syncs_old_chunks`).** Before D15, `Sys.Clean` alone was NOT enough for
+the threading lemma: if the `fdatasync` of an OLDER chunk file failed (the worker keeps that
+file in its list and goes back to `recv`: the system is clean), drop + open built a worker
+that tracks only the newest file and the older file was never synced again. Now `open` syncs
+every chunk file it keeps, so after drop + open every linked file is durable to its end, the
+restarted system is `SysCovered`, and the restart statements need no hypothesis besides
+`Sys.Clean`. `Sys.OldSyncedLIFT` (every linked file with bytes not known durable is the open
+chunk's file) is still reported for recovered and restarted systems.
 
 Contents.
 * (0) `lift_crashInv_clean_restart`, `LiftInv` (crash invariant ∧ `SysPostD14` ∧ `SysCacheInv`)
@@ -60,17 +57,18 @@ theorem lift_oldSynced_spec (y : Sys) : y.OldSyncedLIFT ↔
       f.id = s.openId := Iff.rfl
 
 /-- **The threading lemma.** `y` satisfies the crash invariant, is clean (worker blocked on
-an empty queue, nothing pending, nothing to remove in store or worker) and its older chunk
-files are synced (`Sys.OldSyncedLIFT`). Then drop + open with ANY configuration `cfg'` (also
+an empty queue, nothing pending, nothing to remove in store or worker); D15: nothing is
+assumed about its older chunk files (`open` syncs them). Then drop + open with ANY configuration `cfg'` (also
 `truncate = false`, any chunk and cache limits) yields a system that satisfies the crash
 invariant AGAIN — for the same reference log `r`, the same write history `W`, the same
 acknowledged position `A` and the same tracked position `(E, K)`. -/
 theorem lift_crashInv_clean_restart {y : Sys} {r : RefLog} {W : List Op} {A E K : Nat}
-    (h : CrashInvC5b y r W A E K) (hc : y.Clean) (hold : y.OldSyncedLIFT) (cfg' : Cfg) :
+    (h : CrashInvC5b y r W A E K) (hc : y.Clean) (cfg' : Cfg) :
     CrashInvC5b ((y.step .drop).step (.openWith cfg')) r W A E K :=
-  crashInv_clean_restart_LIFT h hc hold cfg'
+  crashInv_clean_restart_LIFT h hc cfg'
 
-/-- The hypothesis on older files holds when the clean worker's file list has one entry. -/
+/-- `OldSyncedLIFT` holds when the clean worker's file list has one entry (D15: no longer
+needed by the restart theorems). -/
 theorem lift_oldSynced_of_single_file {y : Sys} {r : RefLog} {W : List Op} {A E K : Nat}
     (h : CrashInvC5b y r W A E K) (hc : y.Clean) (h1 : y.worker.files.length = 1) :
     y.OldSyncedLIFT :=
@@ -93,11 +91,11 @@ theorem lift_inv_history (steps : List Step) (y : Sys) (r r' : RefLog) (W : List
 /-- Kept by a clean restart; the restarted system is clean and its older files are synced
 (so it can be restarted again right away). -/
 theorem lift_inv_restart {y : Sys} {r : RefLog} {W : List Op} {A E K : Nat}
-    (h : LiftInv y r W A E K) (hc : y.Clean) (hold : y.OldSyncedLIFT) (cfg' : Cfg) :
+    (h : LiftInv y r W A E K) (hc : y.Clean) (cfg' : Cfg) :
     LiftInv ((y.step .drop).step (.openWith cfg')) r W A E K ∧
     ((y.step .drop).step (.openWith cfg')).Clean ∧
     ((y.step .drop).step (.openWith cfg')).OldSyncedLIFT :=
-  liftInv_restart_LIFT h hc hold cfg'
+  liftInv_restart_LIFT h hc cfg'
 
 /-- Holds again after crash + recovery (`c05_crashInv_recovered` with the cache invariant and
 the postponed-removals invariant): for the first `n` writes and the reference log `r'` they
@@ -302,8 +300,7 @@ theorem c08_clean_files_are_live_chunks_of_crashInv {y : Sys} {r : RefLog} {W : 
 (so all of (a), (b), (c) above hold for it and for every continuation), and its linked files
 are exactly the live chunks. -/
 theorem c08_restarted_files_are_live_chunks {y : Sys} {r : RefLog} {W : List Op} {A E K : Nat}
-    (h : CrashInvC5b y r W A E K) (hpo : SysPostD14 y) (hc : y.Clean) (hold : y.OldSyncedLIFT)
-    (cfg' : Cfg) :
+    (h : CrashInvC5b y r W A E K) (hpo : SysPostD14 y) (hc : y.Clean) (cfg' : Cfg) :
     let y2 := (y.step .drop).step (.openWith cfg')
     CrashInvC5b y2 r W A E K ∧ SysPostD14 y2 ∧
     ∃ s jc jo, y2.store = some s ∧ y2.fs.linkedIds = s.closed.map Closed.id ++ [s.openId] ∧
@@ -314,7 +311,7 @@ theorem c08_restarted_files_are_live_chunks {y : Sys} {r : RefLog} {W : List Op}
       ∀ p ∈ liveChunksC3 s jc jo, AllWF p.2 ∧ (∃ st rest, p.2 = .state st :: rest) ∧
         offsetsFrom p.1.id (recSizes p.2) = p.1.offsets ∧ ∃ t, fdata y2.fs p.1.id ++ t = encAll p.2 := by
   intro y2
-  have h1 := crashInv_clean_restart_LIFT h hc hold cfg'
+  have h1 := crashInv_clean_restart_LIFT h hc cfg'
   have h2 : SysPostD14 y2 := (hpo.step _).step _
   have hc2 : y2.Clean := by
     obtain ⟨s, hs, hq, hp, hrem, hpost⟩ := hc
@@ -409,8 +406,8 @@ theorem c04_positive_callback_means_durable_of_crashInv {y : Sys} {r : RefLog} {
 worker steps of any outcome, `workerIdle`, `drain`) whose calls are legal and accepted — for
 `r`, ANY reference log the system refines (`CSys y r`; acceptance depends only on the state
 and the entry keys, `run_keys_LIFT`), well-formed and small — with the worker alive at the
-end; a clean restart (drop + open with any configuration) of a clean system whose older chunk
-files are synced; a crash (any crash image without torn predecessor) followed by recovery with
+end; a clean restart (drop + open with any configuration) of a clean system (D15: no
+hypothesis on older chunk files); a crash (any crash image without torn predecessor) followed by recovery with
 `truncate = true`. In any order, any number of times. -/
 inductive ReachLIFT : Sys → Prop
   | fresh (cfg : Cfg) : ReachLIFT (Sys.fresh cfg)
@@ -418,7 +415,7 @@ inductive ReachLIFT : Sys → Prop
       (∀ st ∈ steps, st.journal = true) → CSys y r → r.run (stepOps steps) = some r' →
       (∀ op ∈ stepOps steps, op.WF ∧ op.small) → (y.run steps).worker.pc ≠ .dead →
       ReachLIFT (y.run steps)
-  | restart {y : Sys} (cfg' : Cfg) : ReachLIFT y → y.Clean → y.OldSyncedLIFT →
+  | restart {y : Sys} (cfg' : Cfg) : ReachLIFT y → y.Clean →
       ReachLIFT ((y.step .drop).step (.openWith cfg'))
   | recover {y : Sys} (img : Fs) (cfg' : Cfg) : ReachLIFT y → CrashImage y.fs img →
       NoTornPredecessor img → cfg'.truncate = true →
@@ -442,9 +439,9 @@ theorem lift_reach_invariant {y : Sys} (h : ReachLIFT y) : ∃ r W A E K, LiftIn
     obtain ⟨r0, W, A, E, K, h0⟩ := ih
     obtain ⟨r0', hr0, _⟩ := run_keys_LIFT (stepOps steps) (lift_csys_keys hC h0.1.csys) r' hr
     exact ⟨r0', _, _, E, K, lift_inv_history steps y r0 r0' W A E K h0 hst hr0 hwf hnd⟩
-  | @restart y cfg' _ hc hold ih =>
+  | @restart y cfg' _ hc ih =>
     obtain ⟨r0, W, A, E, K, h0⟩ := ih
-    exact ⟨r0, W, A, E, K, (lift_inv_restart h0 hc hold cfg').1⟩
+    exact ⟨r0, W, A, E, K, (lift_inv_restart h0 hc cfg').1⟩
   | @recover y img cfg' _ hc hnt htr ih =>
     obtain ⟨r0, W, A, E, K, h0⟩ := ih
     obtain ⟨_, s', n, r', A', _, _, _, hli, _⟩ := lift_inv_recovered h0.1 img hc hnt cfg' htr
@@ -504,7 +501,7 @@ theorem c04_positive_callback_means_durable_reach {y : Sys} (h : ReachLIFT y) (r
   exact c04_positive_callback_means_durable_of_crashInv h1 pre mid post i st r0' s1 hsteps hr0 hwf
     halive halive2 hheld hfresh hs1 hcb
 
-/-! ### The finding -/
+/-! ### D15: the restart syncs the older chunk files -/
 
 def liftUnsyncedExample : List Step :=
   [ .call (.append [(⟨1, 0⟩, [1]), (⟨1, 1⟩, [2])]), .flush (some 3),
@@ -514,7 +511,21 @@ def liftUnsyncedRestarted : Sys :=
   (((Sys.fresh { maxRecords := 3 }).run liftUnsyncedExample).step .drop).step
     (.openWith { maxRecords := 3 })
 
-theorem lift_restart_forgets_unsynced_old_chunk :
+/-- The continuation used below: a commit, a flush with callback 4, the worker runs. -/
+def liftUnsyncedMore : List Step := [.call (.commit ⟨1, 1⟩), .flush (some 4), .workerIdle]
+
+/-- **D15: a clean restart syncs the older chunk files** (replaces the finding
+`lift_restart_forgets_unsynced_old_chunk`, which the change to `open` made false). Same
+history: the `fdatasync` of the OLDER chunk file 0 fails twice, the worker goes back to
+`recv` with files `[0, 84]` in its list and nothing durable; the system is clean and
+satisfies the crash invariant, but NOT `OldSyncedLIFT`. Drop + open now emits
+`sync "o" 0 true, sync "o" 84 true`: both files are durable to their ends, the restarted
+system is `SysCovered` and satisfies the crash invariant again (by
+`lift_crashInv_clean_restart`, no extra hypothesis). The later flush is acknowledged with a
+positive callback and that callback is sound: the final directory is durable to the end of
+every file, after the worst power failure `open` reports the acknowledged state, and EVERY
+crash image of the final directory opens (any configuration with `truncate`). -/
+theorem lift_restart_syncs_old_chunks :
     (∀ st ∈ liftUnsyncedExample, st.journal = true) ∧
     (RefLog.run {} (stepOps liftUnsyncedExample)).isSome = true ∧
     (∀ op ∈ stepOps liftUnsyncedExample, op.WF ∧ op.small) ∧
@@ -528,38 +539,69 @@ theorem lift_restart_forgets_unsynced_old_chunk :
     ((Sys.fresh { maxRecords := 3 }).run liftUnsyncedExample).fs.map
       (fun f => (f.id, f.data.length, f.durable, f.linked)) = [(0, 84, 0, true), (84, 34, 0, true)] ∧
     ¬ ((Sys.fresh { maxRecords := 3 }).run liftUnsyncedExample).OldSyncedLIFT ∧
+    ({ (((Sys.fresh { maxRecords := 3 }).run liftUnsyncedExample).step .drop) with
+        cfg := { maxRecords := 3 } } : Sys).open.2.2 = [.sync "o" 0 true, .sync "o" 84 true] ∧
     liftUnsyncedRestarted.worker.files.map FileEnt.id = [84] ∧
     liftUnsyncedRestarted.fs.map
-      (fun f => (f.id, f.data.length, f.durable, f.linked)) = [(0, 84, 0, true), (84, 34, 0, true)] ∧
-    ¬ SysCovered liftUnsyncedRestarted ∧
-    (∀ r W A E K, ¬ CrashInvC5b liftUnsyncedRestarted r W A E K) ∧
+      (fun f => (f.id, f.data.length, f.durable, f.linked)) = [(0, 84, 84, true), (84, 34, 34, true)] ∧
+    SysCovered liftUnsyncedRestarted ∧
+    (∃ r W A, CrashInvC5b liftUnsyncedRestarted r W A 0 0) ∧
     Ev.cb 4 true ∈ (liftUnsyncedRestarted.run [.call (.commit ⟨1, 1⟩), .flush (some 4)]).stepEvs
       .workerIdle ∧
-    (liftUnsyncedRestarted.run [.call (.commit ⟨1, 1⟩), .flush (some 4), .workerIdle]).fs.map
-      (fun f => (f.id, f.data.length, f.durable, f.linked)) = [(0, 84, 0, true), (84, 62, 62, true)] ∧
-    (openStore {} (powerCrash
-      (liftUnsyncedRestarted.run [.call (.commit ⟨1, 1⟩), .flush (some 4), .workerIdle]).fs)).1
-      = .err .gap := by
+    (liftUnsyncedRestarted.run liftUnsyncedMore).fs.map
+      (fun f => (f.id, f.data.length, f.durable, f.linked)) = [(0, 84, 84, true), (84, 62, 62, true)] ∧
+    c03View (openStore {} (powerCrash (liftUnsyncedRestarted.run liftUnsyncedMore).fs)).1
+      = some (⟨none, some ⟨1, 1⟩, some ⟨1, 1⟩, none, none⟩, [(0, ⟨1, 0⟩), (1, ⟨1, 1⟩)]) ∧
+    (∀ img cfg', CrashImage (liftUnsyncedRestarted.run liftUnsyncedMore).fs img →
+      cfg'.truncate = true → (({ fs := img, cfg := cfg' } : Sys).open).1 = .ok ()) := by
   have hwf : ∀ op ∈ stepOps liftUnsyncedExample, op.WF ∧ op.small := by
     intro op hop
     simp only [liftUnsyncedExample, stepOps, List.mem_cons, List.not_mem_nil, or_false] at hop
     subst hop
     simp [Op.WF, Op.small, LogId.WF, bytesWF, smallId, U64, U32]
-  have hnc : ¬ SysCovered liftUnsyncedRestarted :=
-    not_covered_of_file_LIFT _ 0 (by decide +kernel) (by unfold Trk; decide +kernel)
-  refine ⟨by decide +kernel, by decide +kernel, hwf, by decide +kernel, by decide +kernel, ?_,
-    Sys.clean_of_cleanB (by decide +kernel), by decide +kernel, by decide +kernel, by decide +kernel,
-    not_oldSynced_of_file_LIFT _ 0 (by decide +kernel) (by decide +kernel) (by decide +kernel),
-    by decide +kernel, by decide +kernel, hnc, ?_, by decide +kernel, by decide +kernel,
-    by decide +kernel⟩
-  · cases hr : RefLog.run {} (stepOps liftUnsyncedExample) with
-    | none => exact absurd hr (by decide +kernel)
-    | some r =>
-      exact ⟨r, _, _, c05_crashInv_history liftUnsyncedExample (Sys.fresh { maxRecords := 3 }) {} r []
-        0 0 0 (c05_crashInv_fresh _) (by decide +kernel) hr hwf (by decide +kernel)⟩
-  · intro r W A E K h
-    obtain ⟨_, ⟨_, _, hcov, _⟩, _⟩ := h
-    exact hnc hcov
+  have hwf2 : ∀ op ∈ stepOps liftUnsyncedMore, op.WF ∧ op.small := by
+    intro op hop
+    simp only [liftUnsyncedMore, stepOps, List.mem_cons, List.not_mem_nil, or_false] at hop
+    subst hop
+    simp [Op.WF, Op.small, LogId.WF, U64]
+  have hclean : ((Sys.fresh { maxRecords := 3 }).run liftUnsyncedExample).Clean :=
+    Sys.clean_of_cleanB (by decide +kernel)
+  have hall : ((RefLog.run {} (stepOps liftUnsyncedExample)).bind
+      (fun r => r.run (stepOps liftUnsyncedMore))).isSome = true := by decide +kernel
+  cases hr : RefLog.run {} (stepOps liftUnsyncedExample) with
+  | none => exact absurd hr (by decide +kernel)
+  | some r =>
+    rw [hr] at hall
+    simp only [Option.bind_some] at hall
+    cases hr2 : r.run (stepOps liftUnsyncedMore) with
+    | none => rw [hr2] at hall; cases hall
+    | some r2 =>
+      have h0 := c05_crashInv_history liftUnsyncedExample (Sys.fresh { maxRecords := 3 }) {} r []
+        0 0 0 (c05_crashInv_fresh _) (by decide +kernel) hr hwf (by decide +kernel)
+      have h2 : CrashInvC5b liftUnsyncedRestarted r _ _ 0 0 :=
+        lift_crashInv_clean_restart h0 hclean { maxRecords := 3 }
+      have h3 := c05_crashInv_history liftUnsyncedMore liftUnsyncedRestarted r r2 _ _ 0 0 h2
+        (by decide +kernel) hr2 hwf2 (by decide +kernel)
+      have hcov : SysCovered liftUnsyncedRestarted := by
+        obtain ⟨_, ⟨_, _, hcov, _⟩, _⟩ := h2
+        exact hcov
+      refine ⟨by decide +kernel, rfl, hwf, by decide +kernel, by decide +kernel, ⟨r, _, _, h0⟩,
+        hclean, by decide +kernel, by decide +kernel, by decide +kernel,
+        not_oldSynced_of_file_LIFT _ 0 (by decide +kernel) (by decide +kernel) (by decide +kernel),
+        by decide +kernel, by decide +kernel, by decide +kernel, hcov, ⟨r, _, _, h2⟩,
+        by decide +kernel, by decide +kernel, by decide +kernel, ?_⟩
+      intro img cfg' hc htr
+      cases hs : (liftUnsyncedRestarted.run liftUnsyncedMore).store with
+      | none => exact absurd hs (by decide +kernel)
+      | some s =>
+        have hoid : (liftUnsyncedRestarted.run liftUnsyncedMore).store.map Store.openId = some 84 := by
+          decide +kernel
+        rw [hs] at hoid
+        simp only [Option.map_some, Option.some.injEq] at hoid
+        have hA : liftUnsyncedRestarted.ackRun liftUnsyncedMore
+            ((Sys.fresh { maxRecords := 3 }).ackRun liftUnsyncedExample 0) = 146 := by decide +kernel
+        have hnt := noTorn_of_CrashInv_C5b h3 hs (by rw [hoid, hA]; decide) hc
+        exact (c05_crashInv_recovered h3 img hc hnt cfg' htr).1
 
 /-! ### (5) Non-vacuity -/
 
@@ -660,8 +702,8 @@ theorem lift_reach_c05Recovered : ReachLIFT c05Recovered := by
   exact ReachLIFT.recover _ {} h1 hc hnt rfl
 
 theorem lift_reach_restarted : ReachLIFT liftRestarted := by
-  obtain ⟨_, _, _, _, _, _, _, hcl, hold⟩ := lift_c05Recovered_inv
-  exact ReachLIFT.restart _ lift_reach_c05Recovered hcl hold
+  obtain ⟨_, _, _, _, _, _, _, hcl, _⟩ := lift_c05Recovered_inv
+  exact ReachLIFT.restart _ lift_reach_c05Recovered hcl
 
 /-- **`ReachLIFT` is inhabited by a run that uses every constructor**: fresh store, history
 `c05Example`, crash + recovery, clean restart with other limits, history `c05Round2`, second
@@ -692,7 +734,7 @@ example :
     liftRestarted.store.map (fun s => (s.cache.items, s.cache.size, s.st.last, logKeys s.log))
       = some ([(⟨1, 0⟩, [1]), (⟨1, 1⟩, [2])], 2, some ⟨1, 1⟩, [(0, ⟨1, 0⟩), (1, ⟨1, 1⟩)]) ∧
     (liftRestarted.run c05Round2).fs.map (fun f => (f.id, f.data.length, f.durable, f.linked))
-      = [(0, 84, 84, true), (84, 34, 34, true), (118, 38, 0, true)] ∧
+      = [(0, 84, 84, true), (84, 34, 34, true), (118, 38, 34, true)] ∧
     liftReachExample.store.map (fun s => (s.st.last, logKeys s.log, s.closed.map Closed.id, s.openId))
       = some (some ⟨1, 1⟩, [(0, ⟨1, 0⟩), (1, ⟨1, 1⟩)], [0, 84, 118], 152) ∧
     liftReachExample.fs.map (fun f => (f.id, f.data.length, f.durable, f.linked))
